@@ -206,7 +206,7 @@ fn version_verdict(bytes: &[u8], v: (u8, u8, u8), cur: (u8, u8, u8)) -> Result<u
 
 pub fn run() {
 	let cx = ctx();
-	cx.note("rule", json!("archives of the corner list (base, zero frames, no/empty metadata, no end, double end, gecko, nothing) per layout-class representative x {none, LZ4, ZSTD} x hash {off,on}, inspected with the harness's own tar reader: signature at offset 0, entry order, every JSON entry valid and equal to the rendering of what peppi::read reconstructs, raw entries equal to the raw blocks, two writes byte-identical; games whose Game End block is longer than the version prescribes; plus 1,101 metadata sizes growing byte by byte over more than two tar blocks (every entry length modulo 512); unknown entries (names x, zz.json, frames.arrow.bak, empty name-ish, 3 KB) inserted at EVERY position before frames.arrow, singly and in pairs: game unchanged; unknown entries with unusual names (a GNU long-name record whose first 100 bytes end in a known name, a name that is not UTF-8, the directory member ./, a 100-byte name) at every position; peppi.json rewritten (own tar writer, checksum recomputed) with format version triples: quick all (major,minor) at patch 0 and all triples over {0,1,2,3,255}; thorough ALL 2^24: read is Err for every triple < (2,0,0), Ok for every triple from 2.0.0 up to the version the writer stamps, and for later versions (on which the statement is silent) Err or Ok. Every case non-trivial; distinct by construction"));
+	cx.note("rule", json!("archives of the corner list (base, zero frames, no/empty metadata, no end, double end, gecko, nothing) per layout-class representative x {none, LZ4, ZSTD} x hash {off,on}, inspected with the harness's own tar reader: signature at offset 0, entry order, every JSON entry valid and equal to the rendering of what peppi::read reconstructs, raw entries equal to the raw blocks, two writes byte-identical; games whose Game End block is longer than the version prescribes; plus 1,101 metadata sizes growing byte by byte over more than two tar blocks (every entry length modulo 512); unknown entries (names x, zz.json, frames.arrow.bak, empty name-ish, 3 KB) inserted at EVERY position before frames.arrow, singly and in pairs: game unchanged; unknown entries whose names share a suffix, prefix or directory with a known entry and whose content is not what the suffix suggests (JSON Lines, empty and broken *.json, *.raw, *.arrow, Start.json, peppi.json.orig, sub/readme.raw) and unknown entries of 64 KiB+1, 1 MiB+1 and 4 MiB+513 bytes at every position, with and without skip_frames; unknown entries with unusual names (a GNU long-name record whose first 100 bytes end in a known name, a name that is not UTF-8, the directory member ./, a 100-byte name) at every position; peppi.json rewritten (own tar writer, checksum recomputed) with format version triples: quick all (major,minor) at patch 0 and all triples over {0,1,2,3,255}; thorough ALL 2^24: read is Err for every triple < (2,0,0), Ok for every triple from 2.0.0 up to the version the writer stamps, and for later versions (on which the statement is silent) Err or Ok. Every case non-trivial; distinct by construction"));
 	cx.note("exhaustive", json!(true));
 	cx.note("assumptions", json!(["for a game without frames the statement leaves the presence of frames.arrow open: both accepted"]));
 	let versions = if cx.quick() { vec![(0, 1), (1, 3), (2, 0), (2, 2), (3, 0), (3, 3), (3, 7), (3, 13), (3, 16)] } else { spec::v_rep() };
@@ -289,13 +289,35 @@ pub fn run() {
 		("notes/readme.txt".into(), vec![]),
 		("big.bin".into(), (0..3000).map(|i| (i % 251) as u8).collect()),
 	];
+	// single placements only: names that share a suffix, prefix or case-variant with a known entry but are not one,
+	// with content that is not what the suffix suggests; sizes past 64 KiB, 1 MiB and 4 MiB (first two bases)
+	let singles: Vec<(String, Vec<u8>)> = vec![
+		("notes.json".into(), b"{\"a\":1}\n{\"b\":2}\n".to_vec()),
+		("index.json".into(), vec![]),
+		("annotations.json".into(), b"// not json\n[1,".to_vec()),
+		("extra.raw".into(), vec![0x36; 5]),
+		("thumb.arrow".into(), vec![0xFF; 64]),
+		("Start.json".into(), b"nope".to_vec()),
+		("peppi.json.orig".into(), b"{\"version\":[0,0,1]}".to_vec()),
+		("sub/readme.raw".into(), vec![1, 2, 3]),
+	];
+	let bigs: Vec<(String, Vec<u8>)> = vec![
+		("b64k.bin".into(), (0..65537).map(|i| (i % 253) as u8).collect()),
+		("b1m.bin".into(), (0..(1usize << 20) + 1).map(|i| (i % 249) as u8).collect()),
+		("b4m.json".into(), (0..(4usize << 20) + 513).map(|i| (i % 241) as u8).collect()),
+	];
 	let mut jobs: Vec<(Vec<u8>, String, bool)> = vec![];
-	for (a, label) in corner_replays((3, 16)).into_iter().chain(corner_replays((2, 0)).into_iter().take(1)) {
+	for (bi, (a, label)) in corner_replays((3, 16)).into_iter().chain(corner_replays((2, 0)).into_iter().take(1)).enumerate() {
 		let arch = mk_archive(&a, 0);
 		let entries = tarfmt::entries(&arch).unwrap_or_else(|m| machinery(&format!("C18: written archive is malformed: {}", m)));
 		let list: Vec<(String, Vec<u8>)> = entries.iter().map(|x| (x.name.clone(), x.data.clone())).collect();
 		let fa = list.iter().position(|x| x.0 == "frames.arrow").unwrap_or(list.len());
 		for pos in 0..=fa {
+			for ex in singles.iter().chain(bigs.iter().filter(|_| bi < 2)) {
+				let mut l = list.clone();
+				l.insert(pos, ex.clone());
+				jobs.push((tarfmt::build(&l), format!("{} + {} ({} bytes) at {}", label, ex.0, ex.1.len(), pos), (pos + bi) % 2 == 1));
+			}
 			for (ei, ex) in extras.iter().enumerate() {
 				let mut l = list.clone();
 				l.insert(pos, ex.clone());
